@@ -109,6 +109,48 @@ def run(ctx, res):
                             masks_seen.add(tuple(m))
                         if has_self and has_mask and whole and m is not None and m[:n] == want_mask and (cnt == n or (cnt is None and all(v == 0 for v in m[n:]) and len(m) == 8)):
                             ok_mask = True
+        # shape 3: copy and mask in one pass, `for ((dst, octet), m) in buf.iter_mut().zip(octets).zip(MASK) { *dst = octet & m }`
+        # (zip nesting either way): the pass covers min(8, #octets, #mask) = n slots and leaves the rest of the zeroed buffer 0
+        for p in paths:
+            if p.end != 'loop':
+                continue
+            for e in p.effects:
+                if e[0] != 'write':
+                    continue
+                rhs = strip_transparent(e[2])
+                if isinstance(rhs, tuple) and rhs[0] == 'call' and rhs[1].split('::')[-1] == 'bitand' and len(rhs[2]) == 2:
+                    ops = [strip_transparent(rhs[2][0]), strip_transparent(rhs[2][1])]
+                elif isinstance(rhs, tuple) and rhs[0] == 'bin' and rhs[1] == 'BitAnd':
+                    ops = [strip_transparent(rhs[2]), strip_transparent(rhs[3])]
+                else:
+                    continue
+                zs = find_calls(e[1], '::zip')
+                if not zs:
+                    continue
+                def leaves(t):
+                    t0 = t
+                    while isinstance(t0, tuple) and t0 and (t0[0] in ('ref', 'deref', 'cast') or (t0[0] == 'call' and len(t0[2]) == 1 and t0[1].split('::')[-1] in ('into_iter', 'iter', 'copied', 'cloned'))):
+                        t0 = t0[1] if t0[0] != 'call' else t0[2][0]
+                    if isinstance(t0, tuple) and t0 and t0[0] == 'call' and t0[1].split('::')[-1] == 'zip' and len(t0[2]) == 2:
+                        return leaves(t0[2][0]) + leaves(t0[2][1])
+                    return [t]
+                top = max(zs, key=lambda z: len(fmt(z, -50)))
+                lv = leaves(top)
+                if len(lv) != 3:
+                    continue
+                dsts = [x for x in lv if find_calls(x, '::iter_mut') and 'repeat' in fmt(x) and not find_calls(x, '::index')]
+                octs = [x for x in lv if find_calls(x, 'Addr::octets') and is_param(root_of(strip_transparent(find_calls(x, 'Addr::octets')[0][2][0])), 'ip')]
+                msk = [array_ints(x) for x in lv if array_ints(x) is not None]
+                if len(dsts) != 1 or len(octs) != 1 or len(msk) != 1:
+                    continue
+                natural = 4 if 'Ipv4Addr' in find_calls(octs[0], 'Addr::octets')[0][1] else 16
+                m = msk[0]
+                masks_seen.add(tuple(m))
+                # both operands are components of the loop element other than the destination slot
+                same_elem = all(find_calls(o, '::next') and find_calls(o, '::next') == find_calls(e[1], '::next') for o in ops) and fmt(ops[0]) != fmt(ops[1]) \
+                    and all(fmt(o) != fmt(strip_transparent(e[1])) for o in ops)
+                if same_elem and min(8, natural, len(m)) == n and m[:n] == want_mask:
+                    ok_copy = ok_mask = True
         for p in rets:
             R = None
             arr = None
@@ -144,6 +186,22 @@ def run(ctx, res):
                         rng = [x for x in term_walk(e[1]) if isinstance(x, tuple) and x and x[0] == 'agg' and x[1].startswith('std::ops::Range')]
                         if rng and term_int(rng[0][2].get('start')) == 3 and term_int(rng[0][2].get('end')) == 19:
                             ok_fill = True
+                        # `let [b0, b1, b2, middle @ .., last] = &mut id;` - the middle of a slice pattern over the 20-byte id
+                        import json as _json
+                        for x in term_walk(e[1]):
+                            if isinstance(x, tuple) and len(x) == 3 and x[0] == 'proj' and isinstance(x[2], str) and x[2].startswith('{"sub"'):
+                                d_ = _json.loads(x[2])
+                                if d_.get('sub') == [3, 19] and not d_.get('from_end') and base_array(x[1])[0] == 'repeat' and str(base_array(x[1])[2]).strip() in ('20', '20_usize'):
+                                    ok_fill = True
+        for p in paths:
+            for e in p.effects:
+                # `id[3..19].fill_with(rand::random)`
+                if e[0] == 'call' and e[1] and e[1].split('::')[-1] == 'fill_with' and len(e[2]) == 2:
+                    rng = [x for x in term_walk(e[2][0]) if isinstance(x, tuple) and x and x[0] == 'agg' and x[1].startswith('std::ops::Range')]
+                    f_ = strip_transparent(e[2][1])
+                    if rng and term_int(rng[0][2].get('start')) == 3 and term_int(rng[0][2].get('end')) == 19 and isinstance(f_, tuple) and f_[0] == 'fn' and f_[1] == 'rand::random' \
+                            and base_array(e[2][0])[0] == 'repeat' and str(base_array(e[2][0])[2]).strip() in ('20', '20_usize'):
+                        ok_fill = True
         res.check(ok_copy, 'TABLE', fn + '/' + fam, 'the first %d address octets are the CRC input prefix' % n, key='octets:' + fam)
         res.check(ok_mask, 'TABLE', fn + '/' + fam, 'the %s mask table equals BEP42 %s and is applied to octets 0..%d' % (fam, ['%02x' % x for x in want_mask], n), detail=str(sorted(masks_seen)), key='mask:' + fam)
         res.check(ok_rand, 'FLOW', fn + '/' + fam, 'one random byte is mixed (OR) into the first masked octet', key='rand-mix:' + fam)
